@@ -16,8 +16,8 @@ META = {
                    "table) symbolic; then eval() + predict, and z3 proves mean and covariance equal to those of a freshly "
                    "constructed model holding the current parameters and data (same atoms). A stale cache is a term over "
                    "superseded atoms -> sat -> replay.",
-    "bounds": {"quick": "all histories of length <= 2 over 11 operations (133) for the exact stub model n in {2,3}, m=2",
-               "thorough": "all histories of length <= 3 (1464)"},
+    "bounds": {"quick": "all histories of length <= 2 over 13 operations for the exact stub model n in {2,3}, m=2",
+               "thorough": "all histories of length <= 3 "},
     "outside": ["direct parameter edits in eval mode (excluded by the property)", "histories longer than the bound",
                 "inducing-point / interpolation kernels and variational models (planned: see DESIGN)", "rounding"],
     "assumptions": ["reals for floats", "an optimiser step / load_state_dict replaces every hyper-parameter, including the stub "
@@ -26,7 +26,7 @@ META = {
 }
 TIMEOUT_S = {"quick": 500, "thorough": 3000}
 
-OPS = ["P0", "P1", "P2", "T", "E", "O", "Dy", "Dxy", "L", "F", "R", "B"]
+OPS = ["P0", "P1", "P2", "T", "E", "O", "Dy", "Dx", "Dxy", "L", "F", "R", "B"]
 NALL = 5  # labels 0..2 may be training points, 3..4 are the test points
 
 
@@ -97,6 +97,11 @@ class Rig:
             y = S.randn(self.n)
             S.sym_tensor(y, "y%d" % self.k)
             m.set_train_data(targets=y)
+        elif name == "Dx":
+            # inputs only (same n): the other half of the label pool {0,1} <-> {1,2} / {0,1,2} <-> {2,1,0}
+            cur = m.train_inputs[0][..., 0].long().tolist()
+            new = [(c + 1) % 3 for c in cur]
+            m.set_train_data(inputs=torch.tensor([[float(c)] for c in new]))
         elif name == "Dxy":
             self.k += 1
             self.n = 3 if self.n == 2 else 2
